@@ -377,6 +377,20 @@ class Export(object):
                 # original dataset, we also create a new basin that
                 # refers to the original dataset itself.
                 basin_list = [bn.as_dict() for bn in ds.basins]
+                if ds.format == "hierarchy":
+                    # The basins of a hierarchy child are the basins of its
+                    # root parent. Their mapping refers to the events of
+                    # the root parent and must be corrected for the events
+                    # selected by the hierarchy child.
+                    from .fmt_hierarchy import map_indices_child2root
+                    root_idx = map_indices_child2root(
+                        child=ds, child_indices=np.arange(len(ds)))
+                    for bn_dict in basin_list:
+                        bmap = bn_dict.get("basin_map")
+                        if bmap is None:
+                            bn_dict["basin_map"] = root_idx
+                        else:
+                            bn_dict["basin_map"] = bmap[root_idx]
                 # In addition to the upstream basins, also store a reference
                 # to the original file from which the export was done.
                 if ds.format in get_basin_classes():
